@@ -568,6 +568,18 @@ fn main() {
             }
         }
     }
+    // nested percent-encodings of an action: a value that still contains an escape sequence after one
+    // decoding (`%41`, `%25`, invalid UTF-8 `%e9`) — decoding twice, or not at all, breaks the round trip
+    for base in ["%41", "a%41b", "%25", "%e9", "%C3%A9", "%", "100%", "%2541"] {
+        let mut enc = base.to_owned();
+        for _level in 0..3 {
+            enc = form_encode(&enc);
+            for path in ["u/a:x", "roomid/a:x/e/b"] {
+                texts.insert((1, format!("matrix:{path}?action={enc}")));
+                texts.insert((1, format!("matrix:{path}?via=v.org&action={enc}")));
+            }
+        }
+    }
     let n_actions = texts.len();
     for lr in &rep {
         for le in &rep {
